@@ -279,7 +279,7 @@ func genEngine(t *rapid.T) EngCase {
 
 func TestEngineConcurrent(t *testing.T) {
 	pbt.Run(t, pbt.Sub[EngCase]{
-		Name: "engine-concurrent", Quick: 160, Thorough: 1800,
+		Name: "engine-concurrent", Quick: 96, Thorough: 1500,
 		Gen: genEngine, Check: checkEngine, Precommit: true,
 	})
 }
